@@ -159,9 +159,12 @@ def cases(tier, salts):
     out = []
     for key in keys:
         for cname, val in value_classes(key, pl.params[key]):
-            for ctx in ("plain", "noise", "proj", "reg"):
+            for ctx in ("plain", "noise", "proj", "reg", "under"):
                 if ctx != "plain" and cname in ("str", "none", "float_for_int", "int_for_float", "bool_for_int", "bool_for_float",
-                                                "float_for_bool", "int_for_bool", "default"):
+                                                "float_for_bool", "int_for_bool", "default") and not (ctx == "under" and cname == "default"):
+                    continue
+                # underdetermined problem (fewer residuals than variables: solve() switches the growing-phase defaults itself)
+                if ctx == "under" and not key.startswith(("growing", "init", "interpolation", "general", "restarts.hard", "restarts.increase")):
                     continue
                 if ctx == "proj" and not key.startswith(("dykstra", "matrix_rank", "init", "growing", "general")):
                     continue
@@ -223,6 +226,12 @@ def _solve(kw_over, up=None, ctx="plain", scaling=False, proj=False, bounds=None
         return np.array([10.0 * (x[1] - x[0] ** 2), 1.0 - x[0]])
     x0 = np.array([-1.2, 1.0])
     kw = {"npt": NPT, "rhobeg": 0.1, "rhoend": 1e-4, "maxfun": MAXFUN, "do_logging": False}
+    if ctx == "under":
+        def objfun(x):     # noqa: F811  (two residuals, three variables)
+            calls.append(np.array(x, copy=True))
+            return np.array([x[0] + 2.0 * x[1] - x[2] - 1.0, x[0] * x[1] + 0.5 * x[2] - 0.5])
+        x0 = np.array([0.5, -0.5, 1.0])
+        kw["npt"] = 4
     if ctx == "noise":
         kw["objfun_has_noise"] = True
     if bounds is None and (scaling or ctx == "bounds"):
